@@ -52,23 +52,23 @@ CHECKS = {
          "Exploration: bytes written == model replace_all on the concatenation == in-memory replace_all_bytes; the closure sees exactly the model's matches and bytes.",
          "Trusted: reference model; capacity hook.", "DESIGN.md §4 C08"),
  "C18": ("fault injection enumerated exhaustively per generated case (every read call, every write call, every accepted-byte count, every closure call) with prefix-consistency oracle",
-         "Fault enumeration: for each generated (stream, schedule, capacity, table) every fault position is injected after a fault-free reference run; the injected error must surface, nothing may panic, matches and written bytes must be prefixes of the fault-free run.",
+         "Fault enumeration: for each generated (stream, schedule, capacity, table) every fault position is injected after a fault-free reference run (runs with more than 400 read/write calls - only the > 64 KiB stream class - get the first, last and evenly spaced positions); the injected error must surface, nothing may panic, matches and written bytes must be prefixes of the fault-free run.",
          "Trusted: fault granularity = call / byte; exhaustive over fault positions per case, sampled over cases.", "DESIGN.md §4 C18"),
  "C12": ("model-based property testing of the in-memory replace routines (bytes and &str variants, table and closure, early termination)",
          "Exploration: results of replace_all(_bytes) and replace_all_with(_bytes) equal the splice of the model iterator; &str results are re-validated as UTF-8 and follow the boundary-skipping rule; fallible and infallible entry points.",
          "Trusted: reference model of the splice.", "DESIGN.md §4 C12"),
  "C13": ("exhaustive enumeration of the configuration product (4536 cells) with generated inputs per cell + random tier; Ok/Err/panic classification against the stated predicate",
-         "Exploration, exhaustive over configuration cells: match kind x start kind x anchoring x automaton kind x 21 public search methods x pattern-list shape, each cell with several generated inputs; outcome must equal the predicate in the property statement and must not depend on engine or input.",
+         "Exploration, exhaustive over configuration cells: match kind x start kind x anchoring x automaton kind x 21 public search methods x pattern-list shape, each cell with several generated inputs; outcome must equal the predicate in the property statement and must not depend on engine or input; plus pattern lists of 32767..65537 patterns (15/16-bit boundaries) through every method.",
          "Trusted: the predicate as transcribed from the property; sampled over inputs.", "DESIGN.md §4 C13"),
  "C17": ("model-based testing of call histories (history independence, clone independence) + concurrent execution of the histories on shared searchers with sequential oracle",
-         "Exploration: generated histories over searcher/clone/clone-of-clone; each result equals the model, is identical when re-run later on any handle, and identical when 2-8 threads execute the history concurrently (overlap measured). Interleavings are sampled, not enumerated.",
+         "Exploration: generated histories over searcher/clone/clone-of-clone; each result equals the model, is identical when re-run later on any handle, and identical when 2-8 threads execute the history concurrently (overlap measured); contention, cold-start (first use of a fresh large searcher by 8 threads) and stream-history (long patterns after tiny streams) scenarios. Interleavings are sampled, not enumerated.",
          "Trusted: OS scheduler sampling; this technique cannot enumerate schedules (stated limit).", "DESIGN.md §4 C17"),
  "C19": ("property-based testing with instrumentation counters (cfg hook) and a deterministic step budget over adversarial pattern/haystack families",
          "Exploration: per search call transitions <= span, positions strictly increase, NFA failure links <= transitions, DFA failure links == 0, step budget 2*span+16 never trips; adversarial a^k b / nested-suffix / Fibonacci families with chain-riding haystacks.",
          "Trusted: the hook call sites (next_state call sites of the three loops; both NFA fail loops).", "DESIGN.md §4 C19"),
  "C20": ("property-based testing of construction over shape-diverse collections x all builder options with metadata and id oracle",
-         "Exploration: build must succeed without panic for every generated collection/option combination; kind(), patterns_len, min/max_pattern_len, match_kind, start_kind, Automaton::pattern_len mirror the input; one model-checked iteration per build pins pattern ids to input positions.",
-         "Trusted: reference model; sizes near the documented limits are out of reach.", "DESIGN.md §4 C20"),
+         "Exploration: build must succeed without panic for every generated collection/option combination; kind(), patterns_len, min/max_pattern_len, match_kind, start_kind, Automaton::pattern_len mirror the input; one model-checked iteration per build pins pattern ids to input positions; deterministic scenarios at the DFA state-id limit (forced DFA: error or DFA; automatic kind: must fall back) and a ~18M-word contiguous encoding.",
+         "Trusted: reference model; sizes near the documented limits are only touched by the deterministic scenarios.", "DESIGN.md §4 C20"),
 }
 
 NOT_YET = {}
